@@ -12,8 +12,8 @@ MUTANTS = [
          old="    return values - y_cor\n\n\ndef gen_ricker", new="    values -= y_cor\n    return values\n\n\ndef gen_ricker",
          why="array-level remove_poly detrends its argument in place"),
     dict(id="c05-delta-series-inplace", prop="C05", file="eqsig/fns/peaks_and_crossings.py",
-         old="    # enforce array type\n    values = np.array(values, dtype=float)\n    # rebase to zero as first value\n    values -= values[0]\n    # remove all non-changing values\n    cleaned_values, non_zero_indices = clean_out_non_changing(values)\n    cleaned_values *= np.sign(cleaned_values[1])  # ensure first value is increasing\n    # compute delta peaks for cleaned data\n    cleaned_delta_peak_series = determine_peak_only_delta_series_4_cleaned_data",
-         new="    # enforce array type\n    values = np.asarray(values, dtype=float)\n    # rebase to zero as first value\n    values -= values[0]\n    # remove all non-changing values\n    cleaned_values, non_zero_indices = clean_out_non_changing(values)\n    cleaned_values *= np.sign(cleaned_values[1])  # ensure first value is increasing\n    # compute delta peaks for cleaned data\n    cleaned_delta_peak_series = determine_peak_only_delta_series_4_cleaned_data",
+         old="    # enforce array type\n    values = np.array(values)\n    if values.dtype.kind in 'iub':\n        values = values.astype(np.int64)  # narrow integer types would wrap around in the differences\n    # rebase to zero as first value (exact for integer series, also on an offset beyond 2**53)\n    values -= values[0]\n    values = values.astype(float)\n    # remove all non-changing values\n    cleaned_values, non_zero_indices = clean_out_non_changing(values)\n    cleaned_values *= np.sign(cleaned_values[1])  # ensure first value is increasing\n    # compute delta peaks for cleaned data\n    cleaned_delta_peak_series = determine_peak_only_delta_series_4_cleaned_data",
+         new="    # enforce array type\n    values = np.asarray(values)\n    if values.dtype.kind in 'iub':\n        values = values.astype(np.int64)  # narrow integer types would wrap around in the differences\n    # rebase to zero as first value (exact for integer series, also on an offset beyond 2**53)\n    values -= values[0]\n    values = values.astype(float)\n    # remove all non-changing values\n    cleaned_values, non_zero_indices = clean_out_non_changing(values)\n    cleaned_values *= np.sign(cleaned_values[1])  # ensure first value is increasing\n    # compute delta peaks for cleaned data\n    cleaned_delta_peak_series = determine_peak_only_delta_series_4_cleaned_data",
          why="determine_peaks_only_delta_series rebases the caller's array"),
     dict(id="c05-surface-reduction-inplace", prop="C05", file="eqsig/surface.py",
          old="        up_wave = up_wave[np.newaxis, :] * up_red[:, np.newaxis]  # 1d\n        down_waves *= down_red[:, np.newaxis]\n    else:\n        up_wave = up_wave * up_red  # 1d  # TODO: may need to increase dimensions here\n        down_waves *= down_red\n    if nodal:\n        acc_series = - down_waves + up_wave\n    else:\n        acc_series = down_waves + up_wave\n    velocity",
@@ -67,8 +67,8 @@ MUTANTS += [
              "    _FA_LAST[0], _FA_LAST[1] = key, out\n    return out\n",
          why="window > 70 000 samples: a second call for the same signal returns the cached arrays (which the caller may have overwritten)"),
     dict(id="c05-win-delta-series-nocopy-250000", prop="C05", file="eqsig/fns/peaks_and_crossings.py",
-         old="    # enforce array type\n    values = np.array(values, dtype=float)\n    # rebase to zero as first value\n    values -= values[0]\n    # remove all non-changing values\n    cleaned_values, non_zero_indices = clean_out_non_changing(values)\n    cleaned_values *= np.sign(cleaned_values[1])  # ensure first value is increasing\n    # compute delta peaks for cleaned data\n    cleaned_delta_peak_series = determine_peak_only_delta_series_4_cleaned_data",
-         new="    # enforce array type\n    values = np.asarray(values, dtype=float) if len(values) > 250000 else np.array(values, dtype=float)  # no copy of very long records\n    # rebase to zero as first value\n    values -= values[0]\n    # remove all non-changing values\n    cleaned_values, non_zero_indices = clean_out_non_changing(values)\n    cleaned_values *= np.sign(cleaned_values[1])  # ensure first value is increasing\n    # compute delta peaks for cleaned data\n    cleaned_delta_peak_series = determine_peak_only_delta_series_4_cleaned_data",
+         old="    # enforce array type\n    values = np.array(values)\n    if values.dtype.kind in 'iub':\n        values = values.astype(np.int64)  # narrow integer types would wrap around in the differences\n    # rebase to zero as first value (exact for integer series, also on an offset beyond 2**53)\n    values -= values[0]\n    values = values.astype(float)\n    # remove all non-changing values\n    cleaned_values, non_zero_indices = clean_out_non_changing(values)\n    cleaned_values *= np.sign(cleaned_values[1])  # ensure first value is increasing\n    # compute delta peaks for cleaned data\n    cleaned_delta_peak_series = determine_peak_only_delta_series_4_cleaned_data",
+         new="    # enforce array type\n    values = np.asarray(values) if len(values) > 250000 else np.array(values)  # no copy of very long records\n    if values.dtype.kind in 'iub':\n        values = values.astype(np.int64)  # narrow integer types would wrap around in the differences\n    # rebase to zero as first value (exact for integer series, also on an offset beyond 2**53)\n    values -= values[0]\n    values = values.astype(float)\n    # remove all non-changing values\n    cleaned_values, non_zero_indices = clean_out_non_changing(values)\n    cleaned_values *= np.sign(cleaned_values[1])  # ensure first value is increasing\n    # compute delta peaks for cleaned data\n    cleaned_delta_peak_series = determine_peak_only_delta_series_4_cleaned_data",
          why="window > 250 000 samples: determine_peaks_only_delta_series rebases the caller's array"),
     dict(id="c05-win-periods-rounded-inplace-700", prop="C05", file="eqsig/sdof.py",
          old="    periods = np.array(periods, dtype=float)\n    if periods[0] == 0:\n        s = 1\n    else:\n        s = 0\n    w = 6.2831853 / periods[s:]\n",
